@@ -236,8 +236,14 @@ func NewAtom(name string) Atom {
 
 // WriteTerm outputs the Atom to an io.Writer.
 func (a Atom) WriteTerm(w io.Writer, opts *WriteOptions, _ *Env) error {
-	ew := errWriter{w: w}
 	openClose := (opts.left != (operator{}) || opts.right != (operator{})) && opts.ops.defined(a)
+	return a.writeTerm(w, opts, openClose)
+}
+
+// writeTerm outputs the Atom, enclosed in parentheses if openClose is true. An operator as an operand has to be
+// enclosed but never the functor of a compound in functional notation: (-)(1) is not a term.
+func (a Atom) writeTerm(w io.Writer, opts *WriteOptions, openClose bool) error {
+	ew := errWriter{w: w}
 
 	if openClose {
 		if opts.left.name != 0 && opts.left.specifier.class() == operatorClassPrefix {
